@@ -34,6 +34,7 @@ class FnSpec:
         self.proofs = []          # [(where, anchor, occ, [(lineno,text)])]
         self.stub = False
         self.trusted_note = None
+        self.attrs = []
 
 
 class ModSpec:
@@ -165,6 +166,8 @@ def parse_spec(path):
             sec = []
             cur_fn.proofs.append((m.group(1), m.group(2), int(m.group(3) or 0), sec, "proof_decl!"))
             section = sec
+        elif s.startswith("%attr") and cur_fn is not None:
+            cur_fn.attrs.append(s[len("%attr"):].strip())
         elif s.startswith("%spec") and cur_fn is not None:
             section = cur_fn.spec
         else:
@@ -446,7 +449,7 @@ def weave_attr(fs, full, probe):
         else:
             txt = txt + "\n    ensures false /*VX_PROBE*/,"
     first = lines[0][0] if lines else fs.line
-    return ("\n#[verus_spec(" + txt + "\n)]\n", ("spec", fs.specfile, first - 1, full, fs.props))
+    return ("\n" + "".join(a + " " for a in fs.attrs) + "#[verus_spec(" + txt + "\n)]\n", ("spec", fs.specfile, first - 1, full, fs.props))
 
 
 def fn_inserts(u, m, d, it, info, used_fns, probe_fn):
